@@ -159,6 +159,8 @@ def lake_build(ctx, targets, timeout=3000):
 
 def prove(ctx, prop_mods, audit_file, expected_theorems):
     """Build theorem modules, audit axioms. Records obligations/discharged and ctx.broken."""
+    if not prop_mods and not audit_file:
+        return True
     ctx.obligations += len(expected_theorems)
     rc, out = lake_build(ctx, prop_mods)
     if rc != 0:
